@@ -136,11 +136,15 @@ fn main() {
             };
             let r = match v["property"].as_str().unwrap_or("") {
                 "C01" => {
-                    world::install_seq_hooks();
+                    if v["engine"] != "E3-schedcheck" {
+                        world::install_seq_hooks();
+                    }
                     props::c01::replay(&v)
                 }
                 "C04" => {
-                    world::install_seq_hooks();
+                    if v["engine"] != "E3-schedcheck" {
+                        world::install_seq_hooks();
+                    }
                     props::c04::replay(&v)
                 }
                 "C03" => {
@@ -215,6 +219,8 @@ fn main() {
         "e3shard" => e3::shard_main(&args[2..], &|prop, tier| match prop {
             "C14" => props::c14::bodies(tier),
             "C06" => props::c06::bodies(tier),
+            "C01" => props::c01::bodies(tier),
+            "C04" => props::c04::bodies(tier),
             "C07" => props::c07::bodies(tier),
             "C08" => props::c08::bodies(tier),
             "C05" => props::c05e3::bodies(tier),
